@@ -137,6 +137,10 @@ pub fn plan(prop: &str, tier: &str, polars: bool, scale: f64) -> Plan {
                     programs: Arc::new(directed::rolling(if thorough { 9 } else { 6 })),
                 },
                 Source::Directed {
+                    name: "directed/bounded-exhaustive-histories",
+                    programs: Arc::new(if thorough { directed::c09_histories(5, 3) } else { directed::c09_histories(4, 2) }),
+                },
+                Source::Directed {
                     name: "directed/typed-consumption-methods",
                     programs: Arc::new(
                         crate::typed::directed(if thorough { 7 } else { 5 }).into_iter().map(Program::Typed).collect(),
